@@ -1,8 +1,8 @@
 (* (5) The package's own decoder (model CSegDecode.v) recovers the chunk from
    the encoder's output. *)
 From Coq Require Import NArith ZArith List Bool Lia ZifyBool ZifyNat ZifyN.
-From NGS Require Import Val Ints Words Arr4 CSegEncode CSegDecode WordsProofs Arr4Proofs
-     CSegPackProofs CSegSortProofs CSegEncodeProofs CSegDecodeProofs.
+From NGS Require Import Val Ints Words Arr4 CSegEncode CSegSpec CSegDecode WordsProofs Arr4Proofs
+     CSegPackProofs CSegSortProofs CSegEncodeProofs CSegSpecProofs CSegDecodeProofs.
 Import ListNotations.
 Open Scope N_scope.
 
@@ -496,4 +496,414 @@ Proof.
   destruct (Hpad _ _ _ Hzb Hyb Hxb) as (pad & Epd).
   change (cdiv (a_x a) (g_bx g)) with (grid_x a g). change (cdiv (a_y a) (g_by g)) with (grid_y a g).
   rewrite Epd. now apply padded_voxel.
+Qed.
+
+(* ====================================================================== *)
+(* Soundness of the package decoder on ARBITRARY bytes: whenever it accepts,
+   every voxel it returns is the one the specification decoder reads.       *)
+(* ====================================================================== *)
+
+Ltac Zify.zify_post_hook ::= Z.to_euclidean_division_equations.
+
+(* ---------- reading through rd32 / u32_at / frombuffer is le_val of a slice ---------- *)
+
+Lemma sub_len_exact (l : list N) off n : off + n <= lenN l -> length (sub l off n) = N.to_nat n.
+Proof. intros H. assert (E := sub_length l off n H). unfold lenN in E. lia. Qed.
+
+Lemma rd32_le_val buf off :
+  off + 4 <= lenN buf -> rd32 buf off = Some (le_val (sub buf off 4)).
+Proof.
+  intros H. assert (L := sub_len_exact buf off 4 H).
+  unfold rd32. unfold sub in *. change (N.to_nat 4) with 4%nat in *.
+  destruct (firstn 4 (skipn (N.to_nat off) buf)) as [|a [|b [|c [|d [|e r]]]]]; try discriminate.
+  f_equal. cbn [le_val]. rewrite two8_val. lia.
+Qed.
+
+Lemma rd32_none_short buf off : rd32 buf off <> None -> off + 4 <= lenN buf.
+Proof.
+  unfold rd32. intros H.
+  destruct (firstn 4 (skipn (N.to_nat off) buf)) as [|a [|b [|c [|d [|e r]]]]] eqn:E; try congruence.
+  assert (L : length (firstn 4 (skipn (N.to_nat off) buf)) = 4%nat) by (rewrite E; reflexivity).
+  rewrite firstn_length, skipn_length in L. unfold lenN. lia.
+Qed.
+
+Lemma u32_at_le_val buf off : u32_at buf (Z.of_N off) = Z.of_N (le_val (sub buf off 4)).
+Proof. unfold u32_at, sub. do 4 f_equal. lia. Qed.
+
+Lemma rd32_skipn buf b o : rd32 (skipn (N.to_nat b) buf) o = rd32 buf (b + o).
+Proof.
+  unfold rd32. rewrite skipn_skipn'. replace (N.to_nat b + N.to_nat o)%nat with (N.to_nat (b + o)) by lia.
+  reflexivity.
+Qed.
+
+Lemma firstn_add {A} n m (l : list A) : firstn (n + m) l = firstn n l ++ firstn m (skipn n l).
+Proof.
+  revert l. induction n; intros l; [reflexivity|]. destruct l; simpl.
+  - now rewrite firstn_nil.
+  - f_equal. apply IHn.
+Qed.
+
+Lemma sub_split (l : list N) o n m : sub l o (n + m) = sub l o n ++ sub l (o + n) m.
+Proof.
+  unfold sub. replace (N.to_nat (n + m)) with (N.to_nat n + N.to_nat m)%nat by lia.
+  rewrite firstn_add, skipn_skipn'. do 3 f_equal. lia.
+Qed.
+
+Lemma frombuffer_items isz l table :
+  isz <> 0 -> frombuffer isz l = Ok table ->
+  lenN table = lenN l / isz /\
+  forall i, i < lenN table -> nthN table i 0 = le_val (sub l (i * isz) isz).
+Proof.
+  intros Hi. unfold frombuffer. destruct (lenN l mod isz =? 0); [|discriminate].
+  intros E. inversion E; subst table. split.
+  - unfold lenN at 1. rewrite items_of_length. lia.
+  - intros i Hlt. unfold lenN in Hlt at 1. rewrite items_of_length in Hlt.
+    unfold nthN. rewrite items_of_nth by lia. unfold sub. do 3 f_equal. lia.
+Qed.
+
+(* Python slice with a non-negative start is a [sub] that lies inside the list *)
+Lemma py_slice_as_sub (l : list N) s e :
+  (0 <= s)%Z -> exists m, py_slice l s e = sub l (Z.to_N s) m /\ (m = 0 \/ Z.to_N s + m <= lenN l).
+Proof.
+  intros Hs. unfold py_slice.
+  assert (H1 := py_norm_range (Z.of_nat (length l)) s ltac:(lia)).
+  assert (H2 := py_norm_range (Z.of_nat (length l)) e ltac:(lia)).
+  set (a := py_norm (Z.of_nat (length l)) s) in *. set (b := py_norm (Z.of_nat (length l)) e) in *.
+  destruct (Z.leb_spec b a).
+  - exists 0. split; [reflexivity|now left].
+  - assert (Ea0 : a = Z.min s (Z.of_nat (length l))).
+    { subst a. unfold py_norm. destruct (Z.ltb_spec s 0); lia. }
+    assert (Ea : a = s) by lia.
+    exists (Z.to_N (b - a)). split.
+    + unfold sub. f_equal; [lia|]. f_equal. lia.
+    + right. unfold lenN. lia.
+Qed.
+
+(* items read by np.frombuffer from buf[s:e] are the items of buf at s, s+isz, ... *)
+Lemma slice_items isz (l : list N) s e table :
+  isz <> 0 -> (0 <= s)%Z -> frombuffer isz (py_slice l s e) = Ok table ->
+  forall i, i < lenN table ->
+    Z.to_N s + (i + 1) * isz <= lenN l /\
+    nthN table i 0 = le_val (sub l (Z.to_N s + i * isz) isz).
+Proof.
+  intros Hi Hs E i Hlt.
+  destruct (py_slice_as_sub l s e Hs) as (m & Em & Hm). rewrite Em in E.
+  destruct (frombuffer_items isz _ table Hi E) as [Hlen Hnth].
+  destruct Hm as [->|Hm].
+  - unfold sub in Hlen. change (N.to_nat 0) with 0%nat in Hlen. cbn [firstn] in Hlen.
+    change (lenN (@nil N)) with 0 in Hlen. rewrite N.div_0_l in Hlen by exact Hi. lia.
+  - rewrite sub_length in Hlen by exact Hm.
+    assert (Hq : (i + 1) * isz <= m).
+    { assert (Hd := N.mul_div_le m isz Hi). nia. }
+    split; [lia|]. rewrite Hnth by exact Hlt. rewrite sub_sub by lia. reflexivity.
+Qed.
+
+(* the specification's table entry is le_val of the item's bytes *)
+Lemma spec_entry_le_val dt buf tb idx :
+  tb + (idx + 1) * itemsize dt <= lenN buf ->
+  spec_entry dt buf tb idx = Some (le_val (sub buf (tb + idx * itemsize dt) (itemsize dt))).
+Proof.
+  intros H. unfold spec_entry. destruct dt; cbn [itemsize] in *.
+  - rewrite rd32_le_val by lia. do 3 f_equal. lia.
+  - rewrite !rd32_le_val by lia.
+    replace (tb + idx * 8) with (tb + 8 * idx) by lia.
+    assert (E8 : sub buf (tb + 8 * idx) 8
+                 = sub buf (tb + 8 * idx) 4 ++ sub buf (tb + 8 * idx + 4) 4)
+      by exact (sub_split buf (tb + 8 * idx) 4 4).
+    rewrite E8, le_val_app.
+    rewrite sub_len_exact by lia. change (two8 ^ N.of_nat (N.to_nat 4)) with (2 ^ 32). reflexivity.
+Qed.
+
+(* ---------- flat_map over an arbitrary list with blocks of uniform length ---------- *)
+
+Lemma lenN_flat_map_list {A B} (g : A -> list B) m (l : list A) :
+  (forall w, lenN (g w) = m) -> lenN (flat_map g l) = lenN l * m.
+Proof.
+  intros H. induction l as [|w r IH]; [reflexivity|].
+  cbn [flat_map]. rewrite lenN_app, IH, H, lenN_cons. lia.
+Qed.
+
+Lemma nthN_flat_map_list {A B} (g : A -> list B) m (l : list A) i j d0 d :
+  (forall w, lenN (g w) = m) -> i < lenN l -> j < m ->
+  nthN (flat_map g l) (i * m + j) d = nthN (g (nthN l i d0)) j d.
+Proof.
+  intros H. revert i. induction l as [|w r IH]; intros i Hi Hj; [rewrite lenN_nil in Hi; lia|].
+  cbn [flat_map]. rewrite lenN_cons in Hi.
+  destruct (N.eq_dec i 0) as [->|Hne].
+  - rewrite nthN_cons_0. rewrite nthN_app1 by (rewrite H; lia). f_equal; lia.
+  - rewrite nthN_cons_pos by lia. rewrite nthN_app2 by (rewrite H; nia).
+    rewrite H. replace (i * m + j - m) with ((i - 1) * m + j) by nia. apply IH; lia.
+Qed.
+
+Lemma unpack_values_nth packed bits B p :
+  pos_bits bits -> p < B -> p / (32 / bits) < lenN packed ->
+  nthN (unpack_values packed bits B) p 0
+  = digit bits (p mod (32 / bits)) (nthN packed (p / (32 / bits)) 0).
+Proof.
+  intros Hpb Hp Hk. destruct (pos_bits_vpw bits Hpb) as (Hv & _ & _).
+  unfold unpack_values. set (vpw := 32 / bits) in *.
+  unfold nthN at 1. rewrite nth_firstn' by lia.
+  change (nth (N.to_nat p) ?l 0) with (nthN l p 0).
+  assert (E := N.div_mod p vpw ltac:(lia)). assert (L := N.mod_lt p vpw ltac:(lia)).
+  set (q := p / vpw) in *. set (r := p mod vpw) in *. clearbody q r.
+  replace p with (q * vpw + r) by lia.
+  rewrite (nthN_flat_map_list _ vpw packed q r 0 0); try assumption.
+  - rewrite nthN_map_range by exact L. reflexivity.
+  - intros w. apply lenN_map_range.
+Qed.
+
+Lemma unpack_values_length packed bits B :
+  pos_bits bits -> B <= lenN packed * (32 / bits) -> lenN (unpack_values packed bits B) = B.
+Proof.
+  intros Hpb H. unfold unpack_values, lenN at 1. rewrite firstn_length.
+  assert (E : lenN (flat_map (fun w => map (fun s => (w / 2 ^ (s * bits)) mod 2 ^ bits) (range (32 / bits))) packed)
+              = lenN packed * (32 / bits)).
+  { apply lenN_flat_map_list. intros w. apply lenN_map_range. }
+  unfold lenN in E at 1. unfold lenN in *. lia.
+Qed.
+
+Lemma nth_repeat_lt {A} (a d : A) n i : (i < n)%nat -> nth i (repeat a n) d = a.
+Proof. revert i. induction n; intros i H; [lia|]. destruct i; simpl; auto. apply IHn. lia. Qed.
+
+Lemma bits_ok_In b : bits_ok (Z.of_N b) = true -> In b allowed_bits.
+Proof.
+  unfold bits_ok, allowed_bits. intros H. simpl.
+  repeat (apply orb_prop in H; destruct H as [H|H]);
+    apply Z.eqb_eq in H;
+    [ left | right; left | do 2 right; left | do 3 right; left | do 4 right; left
+    | do 5 right; left | do 6 right; left ]; lia.
+Qed.
+
+(* ---------- the specification read relative to a channel buffer ---------- *)
+
+Definition block_spec (dt : dtype) (cbuf : list N) (k p : N) : option N :=
+  match rd32 cbuf (8 * k), rd32 cbuf (8 * k + 4) with
+  | Some w0, Some w1 =>
+      let lut := w0 mod 2 ^ 24 in
+      let bits := w0 / 2 ^ 24 in
+      if negb (bits_allowed bits) then None else
+      match spec_index cbuf (4 * w1) bits p with
+      | None => None
+      | Some idx => spec_entry dt cbuf (4 * lut) idx
+      end
+  | _, _ => None
+  end.
+
+(* whenever a block iteration of the decoder succeeds, each of its B values is
+   what the specification reads for that position *)
+Lemma decode_block_sound dt cbuf B k vals :
+  decode_block dt cbuf B k = Ok vals ->
+  forall p, p < B -> block_spec dt cbuf k p = Some (nthN vals p 0).
+Proof.
+  unfold decode_block.
+  destruct (Z.ltb_spec (zlen cbuf) (8 * Z.of_N k + 8)) as [|Hhdr]; [discriminate|].
+  rewrite <- lenN_zlen in Hhdr.
+  replace (8 * Z.of_N k)%Z with (Z.of_N (8 * k)) by lia.
+  replace (Z.of_N (8 * k) + 4)%Z with (Z.of_N (8 * k + 4)) by lia.
+  rewrite !u32_at_le_val.
+  set (w0 := le_val (sub cbuf (8 * k) 4)). set (w1 := le_val (sub cbuf (8 * k + 4) 4)).
+  change (2 ^ 24)%Z with (Z.of_N two24).
+  rewrite <- N2Z.inj_mod, <- N2Z.inj_div by (rewrite two24_val; lia).
+  set (lut := w0 mod two24). set (bits := w0 / two24).
+  destruct (bits_ok (Z.of_N bits)) eqn:Hbok; [|discriminate]. cbn [negb].
+  assert (Hall := bits_ok_In bits Hbok).
+  replace (4 * Z.of_N lut)%Z with (Z.of_N (4 * lut)) by lia.
+  destruct (frombuffer (itemsize dt) _) as [table| | | | | |] eqn:Etab; try discriminate. cbn [bind].
+  assert (Hisz : itemsize dt <> 0) by (destruct dt; discriminate).
+  assert (Htab := slice_items (itemsize dt) cbuf (Z.of_N (4 * lut)) _ table Hisz (N2Z.is_nonneg _) Etab).
+  rewrite N2Z.id in Htab.
+  (* the two header words as the specification reads them *)
+  assert (R0 : rd32 cbuf (8 * k) = Some w0) by (apply rd32_le_val; lia).
+  assert (R1 : rd32 cbuf (8 * k + 4) = Some w1) by (apply rd32_le_val; lia).
+  assert (Hspec : forall p idx,
+            spec_index cbuf (4 * w1) bits p = Some idx -> idx < lenN table ->
+            block_spec dt cbuf k p = Some (nthN table idx 0)).
+  { intros p idx Hsi Hidx. unfold block_spec. rewrite R0, R1. cbv zeta.
+    change (2 ^ 24) with two24. fold lut bits.
+    rewrite (bits_allowed_In bits Hall). cbn [negb]. rewrite Hsi.
+    destruct (Htab idx Hidx) as [Hext Hv]. rewrite spec_entry_le_val by lia. now rewrite Hv. }
+  destruct (Z.eqb_spec (Z.of_N bits) 0) as [Hz|Hnz].
+  - (* 0 bits *)
+    destruct table as [|v trest]; [discriminate|]. intros E p Hp. inversion E; subst vals.
+    rewrite (Hspec p 0).
+    + rewrite nthN_cons_0. unfold nthN. rewrite nth_repeat_lt by lia. reflexivity.
+    + unfold spec_index. replace bits with 0 by lia. reflexivity.
+    + rewrite lenN_cons. lia.
+  - assert (Hnz' : bits <> 0) by lia.
+    assert (Hpb : pos_bits bits) by (apply allowed_pos_bits; assumption).
+    destruct (pos_bits_vpw bits Hpb) as (Hv & Hm & _).
+    assert (Evpw : (32 / Z.of_N bits = Z.of_N (32 / bits))%Z).
+    { change 32%Z with (Z.of_N 32). rewrite <- N2Z.inj_div. reflexivity. }
+    rewrite Evpw. rewrite <- cdiv_py by exact Hv.
+    set (vpw := 32 / bits) in *. set (np := cdiv B vpw).
+    replace (4 * Z.of_N w1 + 4 * Z.of_N np)%Z with (Z.of_N (4 * w1 + 4 * np)) by lia.
+    replace (4 * Z.of_N w1)%Z with (Z.of_N (4 * w1)) by lia.
+    destruct (Z.ltb_spec (zlen cbuf) (Z.of_N (4 * w1 + 4 * np))) as [|Hvend]; [discriminate|].
+    rewrite <- lenN_zlen in Hvend.
+    rewrite py_slice_sub by lia. replace (4 * w1 + 4 * np - 4 * w1) with (4 * np) by lia.
+    destruct (frombuffer 4 _) as [packed| | | | | |] eqn:Epk; try discriminate. cbn [bind].
+    destruct (frombuffer_items 4 _ packed ltac:(lia) Epk) as [Hpl Hpn].
+    rewrite sub_length in Hpl by lia.
+    replace (4 * np / 4) with np in Hpl by (rewrite N.mul_comm, N.div_mul; lia).
+    rewrite N2Z.id.
+    unfold lookup_all.
+    destruct (forallb _ _) eqn:Hfa; [|discriminate].
+    intros E p Hp. inversion E; subst vals. clear E.
+    assert (HB : B <= lenN packed * vpw) by (rewrite Hpl; apply cdiv_le; exact Hv).
+    assert (Hul := unpack_values_length packed bits B Hpb HB).
+    rewrite nthN_map with (d := 0) by lia.
+    assert (Hj : p / vpw < lenN packed) by (rewrite Hpl; apply div_lt_cdiv; assumption).
+    assert (Hun := unpack_values_nth packed bits B p Hpb Hp Hj). fold vpw in Hun.
+    assert (Hin : nthN (unpack_values packed bits B) p 0 < lenN table).
+    { rewrite forallb_forall in Hfa. apply N.ltb_lt. apply Hfa. unfold nthN. apply nth_In.
+      unfold lenN in Hul. lia. }
+    apply Hspec; [|exact Hin].
+    rewrite Hun. unfold spec_index.
+    destruct (N.eqb_spec bits 0); [contradiction|].
+    destruct (bitpos_split bits p Hpb) as [E1 E2]. fold vpw in E1, E2. rewrite E1, E2.
+    set (j := p / vpw) in *. set (sh := p mod vpw) in *. clearbody j sh.
+    rewrite rd32_le_val by lia.
+    rewrite (Hpn j Hj). rewrite sub_sub by lia.
+    replace (4 * w1 + j * 4) with (4 * w1 + 4 * j) by lia. reflexivity.
+Qed.
+
+(* ---------- from blocks to channels to the file ---------- *)
+
+Lemma mapM_nseq_inv {B} (f : N -> outcome B) (d : B) n : forall s (l : list B),
+  mapM f (nseq s n) = Ok l ->
+  length l = n /\ forall i, (i < n)%nat -> f (s + N.of_nat i) = Ok (nth i l d).
+Proof.
+  induction n as [|n IH]; intros s l E.
+  - cbn [nseq mapM] in E. inversion E. split; [reflexivity|]. intros i Hi. lia.
+  - cbn [nseq mapM] in E. destruct (f s) as [b| | | | | |] eqn:Ef; try discriminate. cbn [bind] in E.
+    destruct (mapM f (nseq (s + 1) n)) as [r| | | | | |] eqn:Er; try discriminate. cbn [bind] in E.
+    inversion E; subst l. destruct (IH _ _ Er) as [Hl Hn]. split; [simpl; lia|].
+    intros i Hi. destruct i.
+    + rewrite N.add_0_r. exact Ef.
+    + cbn [nth]. rewrite <- Hn by lia. f_equal. lia.
+Qed.
+
+Lemma mapM_range_inv {B} (f : N -> outcome B) (d : B) n (l : list B) :
+  mapM f (range n) = Ok l -> lenN l = n /\ forall k, k < n -> f k = Ok (nthN l k d).
+Proof.
+  unfold range. intros E. destruct (mapM_nseq_inv f d _ _ _ E) as [Hl Hn].
+  split; [unfold lenN; lia|]. intros k Hk. specialize (Hn (N.to_nat k) ltac:(lia)).
+  rewrite N.add_0_l, N2Nat.id in Hn. exact Hn.
+Qed.
+
+Lemma decode_channels_inv dt buf B nblk offs : forall chans,
+  decode_channels dt buf B nblk offs = Ok chans ->
+  length chans = length offs /\
+  forall c, (c < length offs)%nat ->
+    (nth c offs 0%Z + 8 * Z.of_N nblk <= zlen buf)%Z /\
+    decode_channel dt (py_slice buf (nth c offs 0%Z) (zlen buf)) B nblk = Ok (nth c chans []).
+Proof.
+  induction offs as [|off rest IH]; intros chans E.
+  - cbn [decode_channels] in E. inversion E. split; [reflexivity|]. intros c Hc. simpl in Hc. lia.
+  - cbn [decode_channels] in E.
+    destruct (Z.ltb_spec (zlen buf) (off + 8 * Z.of_N nblk)) as [|Hlen]; [discriminate|].
+    destruct (decode_channel dt _ B nblk) as [blocks| | | | | |] eqn:Ec; try discriminate. cbn [bind] in E.
+    destruct (decode_channels dt buf B nblk rest) as [more| | | | | |] eqn:Er; try discriminate.
+    cbn [bind] in E. inversion E; subst chans. destruct (IH _ eq_refl) as [Hl Hn].
+    split; [simpl; lia|]. intros c Hc. destruct c.
+    + cbn [nth]. split; [lia|exact Ec].
+    + cbn [nth]. apply Hn. simpl in Hc. lia.
+Qed.
+
+Lemma py_slice_tail (l : list N) (o : N) :
+  o <= lenN l -> py_slice l (Z.of_N o) (zlen l) = skipn (N.to_nat o) l.
+Proof.
+  intros H. rewrite <- lenN_zlen. rewrite py_slice_sub by lia.
+  unfold sub. apply firstn_all2. rewrite skipn_length. unfold lenN. lia.
+Qed.
+
+Lemma spec_index_skipn buf b vb bits p :
+  spec_index (skipn (N.to_nat b) buf) vb bits p = spec_index buf (b + vb) bits p.
+Proof.
+  unfold spec_index. destruct (bits =? 0); [reflexivity|].
+  rewrite rd32_skipn. now rewrite N.add_assoc.
+Qed.
+
+Lemma spec_entry_skipn dt buf b tb idx :
+  spec_entry dt (skipn (N.to_nat b) buf) tb idx = spec_entry dt buf (b + tb) idx.
+Proof.
+  unfold spec_entry. destruct dt; rewrite !rd32_skipn; now rewrite !N.add_assoc.
+Qed.
+
+(* the specification's voxel = its block-relative reading in buf[4*coff:] *)
+Lemma spec_value_block dt buf Y X bx by_ bz c z y x coff :
+  bx <> 0 -> by_ <> 0 -> bz <> 0 -> rd32 buf (4 * c) = Some coff ->
+  spec_value dt buf Y X bx by_ bz c z y x
+  = block_spec dt (skipn (N.to_nat (4 * coff)) buf)
+      (x / bx + cdiv X bx * (y / by_ + cdiv Y by_ * (z / bz)))
+      (x mod bx + bx * (y mod by_ + by_ * (z mod bz))).
+Proof.
+  intros Hx Hy Hz Hc. unfold spec_value, block_spec.
+  destruct (N.eqb_spec bx 0); [contradiction|].
+  destruct (N.eqb_spec by_ 0); [contradiction|].
+  destruct (N.eqb_spec bz 0); [contradiction|]. cbn [orb].
+  rewrite Hc. rewrite !ceil_quot_cdiv by assumption.
+  set (k := x / bx + cdiv X bx * (y / by_ + cdiv Y by_ * (z / bz))).
+  set (p := x mod bx + bx * (y mod by_ + by_ * (z mod bz))).
+  rewrite !rd32_skipn. rewrite N.add_assoc.
+  destruct (rd32 buf (4 * coff + 8 * k)) as [w0|]; [|reflexivity].
+  destruct (rd32 buf (4 * coff + 8 * k + 4)) as [w1|]; [|reflexivity].
+  destruct (negb (bits_allowed (w0 / 2 ^ 24))); [reflexivity|].
+  rewrite spec_index_skipn.
+  destruct (spec_index buf (4 * coff + 4 * w1) (w0 / 2 ^ 24) p); [|reflexivity].
+  now rewrite spec_entry_skipn.
+Qed.
+
+(* ---------- the package decoder is sound w.r.t. the specification ---------- *)
+
+Theorem cseg_decode_sound dt nc g cx cy cz buf a :
+  cseg_decode dt nc g cx cy cz buf = Ok a ->
+  forall c z y x, c < nc -> z < cz -> y < cy -> x < cx ->
+    spec_value dt buf cy cx (g_bx g) (g_by g) (g_bz g) c z y x = Some (get4 a c z y x).
+Proof.
+  unfold cseg_decode.
+  destruct (N.eqb_spec (g_bx g) 0) as [|Hbx]; [discriminate|].
+  destruct (N.eqb_spec (g_by g) 0) as [|Hby]; [discriminate|].
+  destruct (N.eqb_spec (g_bz g) 0) as [|Hbz]; [discriminate|]. cbn [orb].
+  set (nblk := (cdiv cx (g_bx g) * cdiv cy (g_by g) * cdiv cz (g_bz g))%N).
+  set (B := (g_bx g * g_by g * g_bz g)%N).
+  destruct (Z.ltb_spec (zlen buf) (Z.of_N (nc * (4 + 8 * nblk)))) as [|Hlen]; [discriminate|].
+  destruct (decode_channels dt buf B nblk (channel_offsets buf nc)) as [chans| | | | | |] eqn:Edc;
+    try discriminate. cbn [bind].
+  intros E c z y x Hc Hz Hy Hx. inversion E; subst a; clear E.
+  unfold assemble. rewrite get4_tab4 by assumption.
+  rewrite <- lenN_zlen in Hlen.
+  (* channel c *)
+  destruct (decode_channels_inv _ _ _ _ _ _ Edc) as [Hcl Hcn].
+  assert (Hol : length (channel_offsets buf nc) = N.to_nat nc).
+  { unfold channel_offsets. rewrite map_length. unfold range. apply nseq_length. }
+  destruct (Hcn (N.to_nat c) ltac:(lia)) as [Hoff Hdc].
+  assert (Eoff : nth (N.to_nat c) (channel_offsets buf nc) 0%Z
+                 = (4 * u32_at buf (4 * Z.of_N c))%Z).
+  { change (nth (N.to_nat c) (channel_offsets buf nc) 0%Z) with (nthN (channel_offsets buf nc) c 0%Z).
+    unfold channel_offsets. rewrite nthN_map with (d := 0) by (rewrite range_length; exact Hc).
+    now rewrite range_nth. }
+  rewrite Eoff in Hoff, Hdc. clear Eoff.
+  replace (4 * Z.of_N c)%Z with (Z.of_N (4 * c)) in Hoff, Hdc by lia.
+  rewrite u32_at_le_val in Hoff, Hdc.
+  set (coff := le_val (sub buf (4 * c) 4)) in *.
+  assert (Rc : rd32 buf (4 * c) = Some coff) by (apply rd32_le_val; nia).
+  replace (4 * Z.of_N coff)%Z with (Z.of_N (4 * coff)) in Hoff, Hdc by lia.
+  rewrite <- lenN_zlen in Hoff.
+  rewrite py_slice_tail in Hdc by lia.
+  fold (nthN chans c []) in Hdc.
+  (* block k *)
+  unfold decode_channel in Hdc.
+  destruct (mapM_range_inv _ [] _ _ Hdc) as [Hbl Hbn].
+  assert (Hxb : x / g_bx g < cdiv cx (g_bx g)) by (apply div_lt_cdiv; [lia|exact Hx]).
+  assert (Hyb : y / g_by g < cdiv cy (g_by g)) by (apply div_lt_cdiv; [lia|exact Hy]).
+  assert (Hzb : z / g_bz g < cdiv cz (g_bz g)) by (apply div_lt_cdiv; [lia|exact Hz]).
+  assert (Hk := grid_index_lt _ _ _ _ _ _ Hxb Hyb Hzb). fold nblk in Hk.
+  specialize (Hbn _ Hk).
+  assert (Lz := N.mod_lt z _ Hbz). assert (Ly := N.mod_lt y _ Hby). assert (Lx := N.mod_lt x _ Hbx).
+  assert (Hp : x mod g_bx g + g_bx g * (y mod g_by g + g_by g * (z mod g_bz g)) < B).
+  { subst B. set (xm := x mod g_bx g) in *. set (ym := y mod g_by g) in *. set (zm := z mod g_bz g) in *.
+    clearbody xm ym zm. assert (ym + g_by g * zm + 1 <= g_by g * g_bz g) by nia. nia. }
+  rewrite (spec_value_block dt buf cy cx _ _ _ c z y x coff Hbx Hby Hbz Rc).
+  apply (decode_block_sound dt _ B _ _ Hbn _ Hp).
 Qed.
